@@ -234,8 +234,8 @@ class BufferStore(Store):
 
             # 6) Compute new insertion index as a get call is cancelled and item that is reserved and associated to an event is now freely available to be assigned to a new incoming event
             if self.mode == "FIFO":
-                # one slot before the remaining reserved block
-                insert_idx = len(self.ready_items) - len(self.reserved_events) - 1
+                # right behind the remaining reserved block, ahead of every never-reserved item
+                insert_idx = len(self.reserved_events)
             else:  # LIFO
                 # top of stack
                 insert_idx = len(self.ready_items)
